@@ -53,6 +53,7 @@ pub const HARNESSES: &[(&str, fn())] = &[
     ("c13_registry_forgets_answered", c09_registry::c13_registry_forgets_answered),
     ("c13_registry_forgets_finished_stream", c09_registry::c13_registry_forgets_finished_stream),
     ("c13_registry_forgets_notification", c09_registry::c13_registry_forgets_notification),
+    ("c13_registry_forgets_rejected_notification", c09_registry::c13_registry_forgets_rejected_notification),
     ("c17_unwrap_value_ops", c17_kv::c17_unwrap_value_ops),
     ("c17_unwrap_exists_list", c17_kv::c17_unwrap_exists_list),
     ("c17_value_conversions", c17_kv::c17_value_conversions),
